@@ -732,6 +732,19 @@ func main() {
 				}
 			}
 		}
+		// round 7 (2992617): nil in convertUntyped and comparison
+		convNilUntyped, cmpNilNil := false, false
+		if fd := common.FindFunc(tc, "typecheck", "convertUntyped"); fd != nil {
+			if is := findIf(fd, "typ.untyped"); is != nil && len(is.Body.List) > 0 {
+				if in, ok := is.Body.List[0].(*ast.IfStmt); ok && src(in.Cond) == "n.typ.isNil() || typ.isNil()" &&
+					src(in.Body) == "{ if n.typ.isNil() != typ.isNil() { return convErr } return nil }" {
+					convNilUntyped = true
+				}
+			}
+		}
+		if fd := common.FindFunc(tc, "typecheck", "comparison"); fd != nil {
+			cmpNilNil = strings.Contains(src(fd), "ok = !(t0.isNil() && t1.isNil()) && (t0.comparable() && t1.comparable() || t0.isNil() && t1.hasNil() || t1.isNil() && t0.hasNil())")
+		}
 		fmt.Fprintf(&b, `/-- interp/typecheck.go unaryOpPredicates, binaryOpPredicates, bitlen; interp/type.go kind predicates -/
 def opFacts : OpFacts :=
   { unary :=
@@ -749,9 +762,11 @@ def opFacts : OpFacts :=
     constIfaceChecked := %v,
     cmpChanExempt := %s,
     shiftBoolGuard := %v,
-    shiftNegChecked := %v }
+    shiftNegChecked := %v,
+    convNilUntypedGuard := %v,
+    cmpNilNilRejected := %v }
 `, table(tc, "unaryOpPredicates"), table(tc, "binaryOpPredicates"), strings.Join(pk, ",\n     "), strings.Join(pc, ",\n     "), strings.Join(bl, ", "), signedRepr,
-			convGuard, nilGuard, constIface, chanCmp, shiftBool, shiftNeg)
+			convGuard, nilGuard, constIface, chanCmp, shiftBool, shiftNeg, convNilUntyped, cmpNilNil)
 
 		// ---- call sites and guards
 		cl := cfgClauses(cfg)
@@ -1103,6 +1118,42 @@ def opFacts : OpFacts :=
 		if fd := common.FindFunc(tc, "typecheck", "callValue"); fd != nil {
 			callConv = findIf(fd, "anc.child[0] != c && !anc.child[0].isType(check.scope)") != nil
 		}
+		// round 7: typeKind (nil-safe kind tests) and operationResult at the four shortcut sites
+		typeKindSafe := false
+		if fd := common.FindFunc(ty, "", "typeKind"); fd != nil && src(fd.Body) == "{ if rt := t.TypeOf(); rt != nil { return rt.Kind() } return reflect.Invalid }" {
+			okAll := true
+			for name, kind := range map[string]string{"isChan": "Chan", "isFunc": "Func", "isMap": "Map", "isPtr": "Ptr"} {
+				if pd := common.FindFunc(ty, "", name); pd == nil || src(pd.Body) != "{ return typeKind(t) == reflect."+kind+" }" {
+					okAll = false
+				}
+			}
+			if c := lastClause(cl, "indexExpr"); c == nil || !strings.Contains(src(c), "switch typeKind(t) {") {
+				okAll = false
+			}
+			typeKindSafe = okAll
+		}
+		opResult := false
+		{
+			n := 0
+			for _, k := range []string{"binaryExpr", "unaryExpr"} {
+				if c := lastClause(cl, k); c != nil {
+					t := src(c)
+					n += strings.Count(t, `if err = check.operationResult(n, dest.typ, "assignment"); err != nil { break } n.typ = dest.typ`)
+				}
+			}
+			bt, ut := "", ""
+			if c := lastClause(cl, "binaryExpr"); c != nil {
+				bt = src(c)
+			}
+			if c := lastClause(cl, "unaryExpr"); c != nil {
+				ut = src(c)
+			}
+			if n == 2 && strings.Contains(bt, `err = check.operationResult(n, sc.def.typ.ret[n.findex], "return argument")`) &&
+				strings.Contains(ut, `if err = check.operationResult(n, sc.def.typ.ret[pos], "return argument"); err != nil { break } n.typ = sc.def.typ.ret[pos]`) &&
+				common.FindFunc(tc, "typecheck", "operationResult") != nil {
+				opResult = true
+			}
+		}
 		fmt.Fprintf(&b, `/-- interp/cfg.go call sites of the checker and guards; interp/typecheck.go arguments -/
 def tcFacts : TcFacts :=
   { ops := opFacts,
@@ -1132,10 +1183,12 @@ def tcFacts : TcFacts :=
     arrayLitSliceUnbounded := %v,
     nilOperandsReported := %v,
     convTypedNumericOk := %v,
-    callValueConvChecked := %v }
+    callValueConvChecked := %v,
+    typeKindNilSafe := %v,
+    opResultChecked := %v }
 `, landLor, send, sendDir, argCmp, retMany, retFew, guardedAll, assertSkip, retConst, cmpErrKept, zeroMode, opAssignZero, quoFloat,
 			indexNeg, indexOperand, recvDecl, recvAssign, callValue, convTyped, arrLit,
-			opTypeOperand, shiftCtx, indexZero, sliceUnbounded, nilReported, convNumeric, callConv)
+			opTypeOperand, shiftCtx, indexZero, sliceUnbounded, nilReported, convNumeric, callConv, typeKindSafe, opResult)
 
 		// ---- pipeline
 		funcs, err := pkgFuncs(repo)
@@ -1226,7 +1279,7 @@ def pipeline : PipelineFacts :=
 		var rows []string
 		row := func(label, h string) { rows = append(rows, "("+common.LeanStr(label)+", "+common.LeanStr(h)+")") }
 		for _, fn := range []string{"op", "assignment", "assignExpr", "unaryExpr", "shift", "comparison", "binaryExpr", "index", "conversion",
-			"unpackParams", "arguments", "argument", "convertUntyped", "representable", "convertConst", "typeAssertionExpr", "logicalExpr", "callValue",
+			"unpackParams", "arguments", "argument", "convertUntyped", "representable", "convertConst", "typeAssertionExpr", "logicalExpr", "callValue", "operationResult",
 			"arrayLitExpr", "mapLitExpr", "structLitExpr", "structBinLitExpr", "sliceExpr", "addressExpr", "starExpr", "switchCases", "builtin", "constExpr"} {
 			row("typecheck."+fn, common.FuncHash(fsetT, tc, "typecheck", fn))
 		}
@@ -1237,7 +1290,7 @@ def pipeline : PipelineFacts :=
 			"methods", "id", "refType", "needsPtrFor"} {
 			row("itype."+fn, common.FuncHash(fsetY, ty, "itype", fn))
 		}
-		for _, fn := range []string{"lookupFieldOrMethod", "isBin"} {
+		for _, fn := range []string{"lookupFieldOrMethod", "isBin", "typeKind"} {
 			row(fn, common.FuncHash(fsetY, ty, "", fn))
 		}
 		for _, fn := range []string{"lookupMethod", "lookupField", "lookupBinMethod", "methods", "numIn", "numOut", "in", "out"} {
